@@ -46,6 +46,15 @@ func swProgram(name string, f *swFam) *Prog {
 		}
 		sw.Cases = append(sw.Cases, c)
 	}
+	// a second switch of the same shape over another var, with its own command names
+	sw2 := Stmt{K: "switch", V: "VAR_S2"}
+	for i, cs := range f.Cases {
+		c := Case{IsDef: cs.IsDef, Body: swBody(cs.Body, i+11)}
+		if !cs.IsDef {
+			c.Val = fmt.Sprint(i + 1)
+		}
+		sw2.Cases = append(sw2.Cases, c)
+	}
 	before := Stmt{K: "cmd", Toks: []string{"before"}}
 	after := Stmt{K: "cmd", Toks: []string{"after"}}
 	flagA := &Expr{K: "leaf", Typ: "flag", Opnd: "FLAG_A", Form: "bare"}
@@ -70,6 +79,24 @@ func swProgram(name string, f *swFam) *Prog {
 	case "thenswitch":
 		second := Stmt{K: "switch", V: "VAR_T", Cases: []Case{{Val: "1", Body: []Stmt{{K: "cmd", Toks: []string{"t1"}}}}, {Val: "2", Body: []Stmt{{K: "cmd", Toks: []string{"t2"}}}}}}
 		body = []Stmt{sw, second}
+	case "twice":
+		body = []Stmt{sw, {K: "cmd", Toks: []string{"between"}}, sw2, after}
+	case "nestedsame":
+		// the same shape again inside the first case body that is not empty (or after the switch)
+		outer := sw
+		outer.Cases = append([]Case{}, sw.Cases...)
+		placed := false
+		for i := range outer.Cases {
+			if len(outer.Cases[i].Body) > 0 {
+				outer.Cases[i].Body = append([]Stmt{sw2}, outer.Cases[i].Body...)
+				placed = true
+				break
+			}
+		}
+		body = []Stmt{outer, after}
+		if !placed {
+			body = []Stmt{outer, sw2, after}
+		}
 	case "inif":
 		body = []Stmt{{K: "if", Arms: []Arm{{Cond: flagA, Body: []Stmt{sw}}}, HasElse: true, Els: []Stmt{before}}, after}
 	default:
